@@ -45,7 +45,7 @@ fn p(k: Kind) -> Node {
 
 /// (schema, values) biased to control block sizes
 pub fn payload_case(rng: &mut Rng) -> (RSchema, Vec<Val>, &'static str) {
-	match rng.below(6) {
+	match rng.below(7) {
 		0 => {
 			// single bytes schema, exact encoded sizes
 			let rs = RSchema { nodes: vec![p(Kind::Bytes)] };
@@ -112,6 +112,20 @@ pub fn payload_case(rng: &mut Rng) -> (RSchema, Vec<Val>, &'static str) {
 				.map(|i| Val::Record(vec![Val::Long(ValueGen::interesting_i64(rng)), Val::Str(format!("value-{i}"))]))
 				.collect();
 			(rs, vals, "many-small")
+		}
+		5 => {
+			// blocks of growing size, alternating compressible / incompressible: every block's
+			// compressed form is larger than what any earlier block needed
+			let rs = RSchema { nodes: vec![p(Kind::Bytes)] };
+			let n = 2 + rng.below(10);
+			let mut size = *rng.pick(&[200usize, 5_000, 40_000, 60_000]);
+			let mut vals = Vec::new();
+			for i in 0..n {
+				let b = if i == 0 && rng.coin() { vec![0u8; size] } else { rng.bytes(size) };
+				vals.push(Val::Bytes(b));
+				size += 1 + rng.below(size / 8 + 16);
+			}
+			(rs, vals, "growing-incompressible")
 		}
 		3 => {
 			// highly compressible large values (decompressed >> compressed)
